@@ -3,8 +3,8 @@ from ..tlc import MachineryError
 from . import interp_common as IC
 from .c05 import replay  # noqa: F401
 
-GROUPS = {"quick": ["InitPath(3)", "InitPathCtm(3)", "InitColor(3)"],
-          "thorough": ["InitPath(4)", "InitPathCtm(4)", "InitColor(4)"]}
+GROUPS = {"quick": ["InitPath(3)", "InitPathCtm(3)", "InitColor(3)", "InitMixed"],
+          "thorough": ["InitPath(4)", "InitPathCtm(4)", "InitColor(4)", "InitMixed"]}
 
 
 def run(ck):
